@@ -542,7 +542,7 @@ CORPUS = [
 
 def run(ctx):
     quick = ctx.tier == "quick"
-    n_trees = ctx.n(26, 150)
+    n_trees = ctx.n(26, 60)
     n_cfg = 3 if quick else 12
     max_depth, max_files = (4, 14) if quick else (6, 60)
     cases = [dict(c) for c in CORPUS]
